@@ -148,7 +148,11 @@ def rule_filters(rep, prog, rid='R16.filter'):
     ok = None
     if isinstance(br, Opq) and br.k[0] == 'mutated' and br.k[1] == 'remove':
         base, arg = br.k[2], br.k[3]
-        base_ok = isinstance(base, Opq) and base.k[0] == 'list' and term_equal(base.k[1], ev.getattr(A('network'), 'branches', f.mod, 0))
+        nb_ = ev.getattr(A('network'), 'branches', f.mod, 0)
+        base_ok = isinstance(base, Opq) and base.k[0] == 'list' and term_equal(base.k[1], nb_)
+        if not base_ok and isinstance(base, Comp) and base.kind == 'list' and len(base.gens) == 1 and not base.gens[0][1] and term_equal(base.gens[0][0], nb_) \
+                and term_equal(base.elt, ev.elem_of(nb_, 0)):
+            base_ok = True          # the copy spelled as [b for b in network.branches]
         arg_ok = same(arg, ev.getitem(A('network'), A('element'))) or 'element' in repr(tkey(arg))
         ok = bool(base_ok and arg_ok)
     elif isinstance(br, Comp):
@@ -214,7 +218,16 @@ def rule_rename(rep, prog, rid='R16.rename'):
              # (a short from the reference to the reference is a self-loop: both orders name the same pair)
              "(vs.node2, vs.node1) if network.is_zero_node(vs.node1) and not network.is_zero_node(vs.node2) else (vs.node1, vs.node2)"]
     pairs_ok = None; why = f'pairs = {it!r:.200}'
-    if isinstance(it, Comp):
+    element_loop = False
+    if isinstance(it, Comp) and lp is not None and not isinstance(it.elt, (tuple, list, Rec, Cond)):
+        # the loop runs over the removable shorts themselves and picks (absorbed, retained) in its body: the shorts must be the specified ones, and
+        # the step is compared below with the specified step taken at the specified pair of each short
+        shorts_sp = spec(ev, "[b for b in network.branches if (b.element.V == 0 and b.element.Z == 0) and b.element not in keep]", env, m)
+        r0 = compare_comps(it, shorts_sp)
+        if r0 is True:
+            element_loop = True; pairs_ok = True; why = 'the loop visits the removable shorts (is_short_circuit and not exempt) in listing order'
+        elif r0 is False: pairs_ok = False
+    elif isinstance(it, Comp):
         res = [compare_comps(it, spec(ev, pair_src.format(p=p_), env, m)) for p_ in forms]
         if any(r is True for r in res): pairs_ok = True; why = '(absorbed, retained) = (n1, n2) unless n1 is the reference; shorts = is_short_circuit and not exempt'
         elif all(r is False for r in res): pairs_ok = False
@@ -228,6 +241,23 @@ def rule_rename(rep, prog, rid='R16.rename'):
         nt = ev.namedtuple_items(pair_rec)
         if pair_rec.clsref and isinstance(pair_rec.clsref, tuple): names = [f_[0] for f_ in prog.dataclass_fields(pair_rec.clsref[0], pair_rec.clsref[1])]
         target = Rec(pair_rec.cls, {names[0]: an_t, names[1]: rn_t}, pair_rec.clsref)
+    if element_loop:
+        step0 = lp['summary'].get(cname)
+        vs_ = ev.elem_of(it, 0)
+        envp = dict(env); envp['vs'] = vs_
+        verdicts = []
+        for an_src, rn_src in (("vs.node1 if not network.is_zero_node(vs.node1) else vs.node2", "vs.node2 if not network.is_zero_node(vs.node1) else vs.node1"),
+                               ("vs.node2 if not network.is_zero_node(vs.node2) else vs.node1", "vs.node1 if not network.is_zero_node(vs.node2) else vs.node2")):
+            envs = {'B': carried, 'an': spec(ev, an_src, envp, m), 'rn': spec(ev, rn_src, envp, m)}
+            envs.update({nm: env[nm] for nm in ('Branch',)})
+            sp_step = spec(ev, "[Branch(rn if b.node1 == an else b.node1, rn if b.node2 == an else b.node2, b.element) for b in B "
+                               "if (rn if b.node1 == an else b.node1) != (rn if b.node2 == an else b.node2)]", envs, m)
+            verdicts.append(compare_terms(step0, sp_step))
+        # (a step that is not recognised as the specified one is left undecided in this form: an untouched branch may be passed through
+        # instead of being rebuilt, which is the same value but not the same term)
+        c = True if True in verdicts else None
+        rep.ob(rid, 'contraction:step', c, f'step = {step0!r:.300}', site)
+        return
     if lp is not None:
         # the step over the concrete pair may split on how the pair was chosen; it is re-evaluated over a symbolic pair below
         if not (isinstance(step, Comp) or (isinstance(step, Cond) and all(isinstance(l, Comp) for _, l in paths_of(step)))):
